@@ -16,6 +16,16 @@ def add_obligations(chk, prop, tier, seed):
         eng = common.new_engine(sl_integrate.stk_contracts, prop)
         sl_integrate.install(eng)
         verify_contracts(eng, [c for c in sl_integrate.stk_contracts if prop in c.props and c.setup], chk)
+    if prop == "C01":
+        # the value of an entry also rests on the analytic double time integration (four-term K2) and on the closed-form
+        # wrappers f(b,d) - f(b,c) + f(a,c) - f(a,d) of the straight-side path: the same contracts as under C04
+        from contracts import single_layer
+        eng = common.new_engine(single_layer.contracts, prop)
+        arrays.install(eng)
+        single_layer.install_spec(eng)
+        want = ("double_time_integrated_kernel", "spacetime_integrated_kernel_1", "spacetime_integrated_kernel_2",
+                "spacetime_integrated_kernel_3", "spacetime_integrated_kernel_4", ":sign")
+        verify_contracts(eng, [c for c in single_layer.contracts if c.setup and c.target.endswith(want)], chk)
     if prop == "C07":
         from contracts import sl_evaluate
         eng = common.new_engine(sl_evaluate.contracts, prop)
